@@ -149,3 +149,215 @@ def run_c03(prop, tier, seed):
 
 
 HANDLERS = {"C03": run_c03}
+
+
+# ------------------------------------------------------------------------------------------------
+# engine E2 "front"
+# ------------------------------------------------------------------------------------------------
+import subprocess, shutil, sys
+
+
+def run_front(args, timeout=3600):
+    out = os.path.join(ws.WORK, "front_%s_%d.json" % (args[0], os.getpid()))
+    cmd = [ws.tool("front")] + args + ["--out", out]
+    t0 = time.time()
+    try:
+        p = subprocess.run(cmd, stdout=subprocess.DEVNULL, stderr=subprocess.PIPE, text=True, timeout=timeout)
+    except subprocess.TimeoutExpired:
+        return None, "front %s timed out" % args[0]
+    log("[front %s] rc=%d %.1fs" % (" ".join(args[:5]), p.returncode, time.time() - t0))
+    if p.returncode != 0 or not os.path.exists(out):
+        return None, "front %s failed: rc=%s %s" % (args[0], p.returncode, (p.stderr or "")[-500:])
+    with open(out) as f:
+        j = json.load(f)
+    os.unlink(out)
+    return j, None
+
+
+FRONT_ASSUMPTIONS = [
+    "the harness links /repo's runtime and codegen crates from the working tree (path dependencies), built with --cfg peginator_verif",
+    "oracles are independent re-implementations written from the property statement and doc/syntax.md",
+]
+
+
+def cov_from_front(j, rule):
+    cov = dict(evaluations=j["evaluations"], distinct_nontrivial=j["distinct_nontrivial"], rule=rule, samples=j["samples"][:12], classes=j["classes"])
+    cov.update(j.get("extra", {}))
+    return cov
+
+
+C11_RULE = ("cases (text, position, file name?, colours on/off): texts assembled from line fragments (ASCII, multi-byte, tabs, spaces, empty, long lines "
+            "up to 300 chars) with \\n / \\r\\n / no final newline, 0-9 lines; position = a char boundary in 0..=len biased to 0, len, line starts and "
+            "line ends; plus an exhaustive small scope (all texts over {a, é, space, newline} of length <= 6 x all boundary positions). Oracle: "
+            "independent arithmetic for line, column (in characters), printed line (modulo trailing whitespace, as the code trims) and caret column; "
+            "Display output parsed with colours forced off, or on with ANSI sequences stripped; catch_unwind for 'never panics'. Non-trivial = position at "
+            "a line start other than 0, at a line end, at len, after a multi-byte character, or empty text; distinct (text, position, file).")
+C12_RULE = ("round trip model -> print(model, layout) -> Grammar::from_str -> lift (public AST -> model, literal items decoded with the repo's own "
+            "char::try_from(&StringItem), flags cross-checked with Rule::flags()) == model; layouts vary whitespace and # comments between all tokens "
+            "(also inside @check(...)/@extern(...) and before ';'), quote style, every escape spelling for every character (raw, \\n-style, \\xXX, \\uXXXX, "
+            "\\U00XXXXXX, \\u{X..} minimal and zero padded, upper/lower hex), redundant parentheses (then compared modulo groups), directive order, several "
+            "@checks before/after @char, lookaheads applied to groups, empty alternatives; second relation: two layouts of one model generate byte-identical "
+            "code. Non-trivial = layout has a comment inside an expression, a non-raw escape, or redundant parentheses; distinct by text.")
+C15_RULE = ("classes of grammar text, each counted: valid model grammars (canonical and random layout, 5 derive sets), restriction violators (25 kinds, one "
+            "injected violation of each documented restriction; every kind also run 3x deterministically) which MUST be rejected with an error value, "
+            "token-level mutations of valid texts, hostile identifiers and @check/@extern paths, include cycles (must be rejected), bracket nesting up to "
+            "depth 64 (choice nesting up to 10), arbitrary Unicode strings; each compiled in a worker child process (from_str + generate_code under "
+            "catch_unwind): outcome must be code or an error value, never a panic, a dead process (stack overflow) or no answer (20 s, then re-run alone "
+            "with the hang budget). Visibility: for a sample of failing and succeeding grammars the peginator-cli binary built from the tree, "
+            "Compile::run() and run_exit_on_error() are run as processes: failure => non-zero status and no generated code on stdout, success => 0. "
+            "Non-trivial = the case reached code generation or is a restriction violator; distinct by text.")
+C18_RULE = ("stateful PBT: history = configuration (file | directory mode with 1-3 grammar files in nested dirs plus a non-.ebnf file, explicit | default "
+            "destination, format on/off) + 3-26 operations from {edit grammar to a valid / invalid / the same text, set prefix (pool with prefixes of each "
+            "other, the empty one, one starting with a comment, one starting with a newline, one rustfmt rewrites), delete destination, remove grammar, "
+            "run}; model: expected destination = header(text) + optional extra // header lines + newline + prefix + newline + library code (through rustfmt "
+            "when formatting). Invariants after every run: Ok iff all grammars valid; success => destination equals the model; nothing changed since the "
+            "producing run => bytes and mtime untouched; failure => failing grammar's destination byte- and mtime-identical; directory mode: every "
+            "destination untouched or complete. Non-trivial = a run after an edit/prefix change that follows a successful run, or an up-to-date shortcut "
+            "run; distinct histories.")
+
+
+def simple_front(prop, sub, rule, quick_cases, thorough_cases, extra_args=()):
+    def handler(prop_, tier, seed):
+        main = _main()
+        t0 = time.time()
+        if not ws.build_tools(("front",)):
+            return 2
+        cases = quick_cases if tier == "quick" else thorough_cases
+        j, err = run_front([sub, "--seed", str(seed), "--cases", str(cases)] + list(extra_args))
+        if j is None:
+            log(err)
+            return 2
+        cov = cov_from_front(j, rule)
+        cov["generated_cases"] = cases
+        return main.finish(prop, tier, seed, t0, cov, j["violations"], FRONT_ASSUMPTIONS, None)
+    return handler
+
+
+def build_cli():
+    """peginator-cli from the tree (own target dir under the work directory)"""
+    tdir = os.path.join(ws.WORK, "repo_target")
+    env = ws.cargo_env()
+    env["CARGO_TARGET_DIR"] = tdir
+    env["RUSTFLAGS"] = "-Awarnings"
+    p = subprocess.run(["cargo", "build", "--offline", "-p", "peginator-cli", "--manifest-path", os.path.join(ws.REPO, "Cargo.toml")],
+                       env=env, stdout=subprocess.PIPE, stderr=subprocess.PIPE, text=True)
+    if p.returncode != 0:
+        log(p.stderr[-2000:])
+        return None
+    return os.path.join(tdir, "debug", "peginator-cli")
+
+
+def run_c15(prop, tier, seed):
+    main = _main()
+    t0 = time.time()
+    if not ws.build_tools(("front",)):
+        return 2
+    cli = build_cli()
+    if cli is None:
+        return 2
+    known = main.load_known()
+    tolerate = [k["matcher"]["signature"] for k in known if k.get("property") == "C15" and k.get("status") == "known" and "signature" in k.get("matcher", {})]
+    cases = 20000 if tier == "quick" else 400000
+    hang = 60 if tier == "quick" else 300
+    args = ["c15", "--seed", str(seed), "--cases", str(cases), "--hang-secs", str(hang)]
+    if tolerate:
+        args += ["--tolerate", ",".join(tolerate)]
+    j, err = run_front(args, timeout=6 * 3600)
+    if j is None:
+        log(err)
+        return 2
+    violations = list(j["violations"])
+    cov = cov_from_front(j, C15_RULE)
+    # probes that re-confirm listed findings (each is a single deterministic case)
+    pj, err = run_front(["c15-probe", "--nest", "0:6000,1:6000,2:6000"], timeout=900)
+    if pj is not None:
+        violations.extend(pj["violations"])
+        cov["probe_cases"] = pj["evaluations"] + len(pj["violations"])
+    # exponential code generation time for choices nested in groups: depth 24 needs hours; a fixed tree answers in milliseconds
+    tmpd = os.path.join(ws.WORK, "c15tmp")
+    shutil.rmtree(tmpd, ignore_errors=True)
+    os.makedirs(tmpd)
+    nest = "@export A = " + "('a' | (" * 24 + "'a'" + "))" * 24 + ";\n"
+    nf = os.path.join(tmpd, "nest5.ebnf")
+    with open(nf, "w") as f:
+        f.write(nest)
+    try:
+        subprocess.run([ws.tool("front"), "codegen", nf], stdout=subprocess.DEVNULL, stderr=subprocess.DEVNULL, timeout=20)
+    except subprocess.TimeoutExpired:
+        violations.append(dict(property="C15", kind="compile", signature="Nesting:kind5:hang", text=nest,
+                               message="code generation for 24 levels of `('a' | (...))` does not finish within 20 s (time doubles per level)",
+                               expected="code or error", observed="no answer"))
+    # visibility of failures through the command-line tool and the build-script helper
+    tj_dir = os.path.join(tmpd, "texts")
+    subprocess.run([ws.tool("front"), "texts", "--seed", str(seed), "--cases", str(150 if tier == "quick" else 1500), "--dir", tj_dir], check=True)
+    with open(os.path.join(tj_dir, "texts.json")) as f:
+        texts = json.load(f)
+    vis = dict(cli_fail=0, cli_ok=0, buildscript_fail=0, buildscript_ok=0, exit_on_error_fail=0, exit_on_error_ok=0)
+    front = ws.tool("front")
+    for i, t in enumerate(texts):
+        gf = os.path.join(tmpd, "t%04d.ebnf" % i)
+        with open(gf, "w") as f:
+            f.write(t["text"])
+        try:
+            lib = subprocess.run([front, "codegen", gf], stdout=subprocess.PIPE, stderr=subprocess.DEVNULL, timeout=30)
+            c = subprocess.run([cli, gf], stdout=subprocess.PIPE, stderr=subprocess.PIPE, timeout=30)
+        except subprocess.TimeoutExpired:
+            continue
+        if lib.returncode not in (0, 1):
+            continue  # crash classes are the in-process part's business
+        lib_ok = lib.returncode == 0
+        has_code = b"mod peginator_generated" in c.stdout
+        def vis_violation(route, msg, observed):
+            violations.append(dict(property="C15", kind="visibility", signature="visibility:%s" % route, text=t["text"], message=msg,
+                                   expected="status 0 iff the grammar compiles", observed=observed))
+        if lib_ok:
+            vis["cli_ok"] += 1
+            if c.returncode != 0 or not has_code:
+                vis_violation("cli", "peginator-cli fails (or prints no code) on a grammar the library compiles", "status %d" % c.returncode)
+        else:
+            vis["cli_fail"] += 1
+            if c.returncode == 0 or has_code:
+                vis_violation("cli", "peginator-cli exits with status 0 (or prints code) although compilation failed", "status %d, code on stdout: %s" % (c.returncode, has_code))
+        if i % 3 == 0:
+            dest = os.path.join(tmpd, "t%04d.rs" % i)
+            for route, sub in (("buildscript", "buildscript"), ("exit_on_error", "exit-on-error")):
+                if os.path.exists(dest):
+                    os.unlink(dest)
+                try:
+                    b = subprocess.run([front, sub, gf, dest], stdout=subprocess.DEVNULL, stderr=subprocess.DEVNULL, timeout=30)
+                except subprocess.TimeoutExpired:
+                    continue
+                vis["%s_%s" % (route, "ok" if lib_ok else "fail")] += 1
+                if lib_ok != (b.returncode == 0):
+                    vis_violation(route, "build-script helper status does not reflect the compilation result", "status %d for a grammar that %s" % (b.returncode, "compiles" if lib_ok else "does not compile"))
+                if not lib_ok and os.path.exists(dest):
+                    vis_violation(route, "build-script helper wrote a destination for a failing grammar", "destination exists")
+    shutil.rmtree(tmpd, ignore_errors=True)
+    cov["visibility_runs"] = vis
+    cov["evaluations"] += sum(vis.values())
+    return main.finish(prop, tier, seed, t0, cov, violations, FRONT_ASSUMPTIONS, None)
+
+
+def run_c18(prop, tier, seed):
+    main = _main()
+    t0 = time.time()
+    if not ws.build_tools(("front",)):
+        return 2
+    wd = os.path.join(ws.WORK, "c18tmp")
+    os.makedirs(wd, exist_ok=True)
+    cases = 250 if tier == "quick" else 6000
+    j, err = run_front(["c18", "--seed", str(seed), "--cases", str(cases), "--workdir", wd], timeout=4 * 3600)
+    shutil.rmtree(wd, ignore_errors=True)
+    if j is None:
+        log(err)
+        return 2
+    cov = cov_from_front(j, C18_RULE)
+    return main.finish(prop, tier, seed, t0, cov, j["violations"], FRONT_ASSUMPTIONS + ["rustfmt on PATH (format mode)"], None)
+
+
+HANDLERS.update({
+    "C11": simple_front("C11", "c11", C11_RULE, 200000, 5000000),
+    "C12": simple_front("C12", "c12", C12_RULE, 30000, 1500000),
+    "C15": run_c15,
+    "C18": run_c18,
+})
